@@ -64,5 +64,8 @@ MutationsChangeContent == mut # NoMut => AbsDoc(Apply(doc, mut)) # AbsDoc(doc)
 Expected(kind) == CASE kind \in {"sealed_in_memory", "sealed_after_text_roundtrip", "resealed_same", "cli_seal_then_verify"} -> "VERIFIED"
                     [] kind \in {"cosmetic_indent4", "cosmetic_spaces", "cosmetic_blank_lines", "cosmetic_no_end", "cosmetic_trailing_ws"} -> "VERIFIED"
                     [] kind \in {"mutated", "hash_char_changed", "cli_mutated"} -> "INVALID"
+                    \* the stored hash shortened, lengthened, emptied; content added behind the seal section (last position of the body)
+                    [] kind \in {"hash_last_char_dropped", "hash_char_appended", "hash_prefix_only", "hash_emptied",
+                                 "node_appended_behind_seal", "cli_node_appended_behind_seal"} -> "INVALID"
                     [] OTHER (* unsealed *) -> "NO_SEAL"
 =============================================================================
